@@ -336,7 +336,7 @@ pub struct A85Block {
 
 pub fn check_a85_block(b: &A85Block) -> Verdict {
     let mut rep = CaseReport::new();
-    let mut run = |tail: &[u8]| -> Result<(), Violation> {
+    let run = |tail: &[u8]| -> Result<(), Violation> {
         let mut data = vec![];
         for g in 0..b.prefix_groups {
             data.extend_from_slice(if g % 2 == 0 { &[0, 0, 0, 0] } else { &[0xde, 0xad, 0xbe, 0xef] });
